@@ -10,6 +10,7 @@ import (
 	"fmt"
 	"io"
 	"math"
+	"reflect"
 
 	"gorgonia.org/tensor"
 )
@@ -74,6 +75,9 @@ func (s Shape) String() string {
 }
 
 var ErrInvalidType = errors.New("invalid type")
+
+// ErrInvalidTensorData is returned when the data of a tensor does not match its dimensions.
+var ErrInvalidTensorData = errors.New("invalid tensor data")
 
 // Dim is a dimension.
 type Dim struct {
@@ -210,7 +214,37 @@ func TensorFromProto(tp *TensorProto) (tensor.Tensor, error) {
 		return nil, err
 	}
 
-	return tensor.New(tensor.WithShape(getDims(tp)...), tensor.WithBacking(values)), nil
+	dims := getDims(tp)
+	if err := checkElementCount(values, dims); err != nil {
+		return nil, err
+	}
+
+	return tensor.New(tensor.WithShape(dims...), tensor.WithBacking(values)), nil
+}
+
+// checkElementCount checks that the number of decoded values is exactly the number of
+// elements described by the dimensions of the tensor.
+func checkElementCount(values interface{}, dims []int) error {
+	nExpected := 1
+
+	for _, dim := range dims {
+		if dim < 0 || (dim > 0 && nExpected > math.MaxInt/dim) {
+			return fmt.Errorf("%w: invalid dimensions %v", ErrInvalidTensorData, dims)
+		}
+
+		nExpected *= dim
+	}
+
+	nValues := 0
+	if v := reflect.ValueOf(values); v.IsValid() && v.Kind() == reflect.Slice {
+		nValues = v.Len()
+	}
+
+	if nValues != nExpected {
+		return fmt.Errorf("%w: dimensions %v need %d values, got %d", ErrInvalidTensorData, dims, nExpected, nValues)
+	}
+
+	return nil
 }
 
 func getFloatData(tp *TensorProto) ([]float32, error) {
